@@ -47,6 +47,9 @@ func runC01(c *run.Ctx) {
 	if g.P(0.15) {
 		world.AddSharedEgressPolicy(g, w)
 	}
+	if c.Idx%11 == 5 {
+		world.AddEverybodyPlusHoledRangeRule(g, w)
+	}
 	world.AddTwinNamedPortPolicy(g, w) // only acts on worlds that hold true twins
 	r.Hash = w.Hash()
 	r.Feat(w.Features...)
